@@ -2685,7 +2685,8 @@ namespace awkward {
             reinterpret_cast<std::complex<float>*>(ptr.get()),
             flatlength_so_far,
             reinterpret_cast<bool*>(contiguous_array.data()),
-            flatlength >> 1);
+            flatlength);
+            flatlength = flatlength * 2;
           break;
         case util::dtype::int8:
           err = kernel::NumpyArray_fill<int8_t, std::complex<float>>(
@@ -2693,7 +2694,8 @@ namespace awkward {
             reinterpret_cast<std::complex<float>*>(ptr.get()),
             flatlength_so_far,
             reinterpret_cast<int8_t*>(contiguous_array.data()),
-            flatlength >> 1);
+            flatlength);
+            flatlength = flatlength * 2;
           break;
         case util::dtype::int16:
           err = kernel::NumpyArray_fill<int16_t, std::complex<float>>(
@@ -2701,7 +2703,8 @@ namespace awkward {
             reinterpret_cast<std::complex<float>*>(ptr.get()),
             flatlength_so_far,
             reinterpret_cast<int16_t*>(contiguous_array.data()),
-            flatlength >> 1);
+            flatlength);
+            flatlength = flatlength * 2;
           break;
         case util::dtype::int32:
           err = kernel::NumpyArray_fill<int32_t, std::complex<float>>(
@@ -2709,7 +2712,8 @@ namespace awkward {
             reinterpret_cast<std::complex<float>*>(ptr.get()),
             flatlength_so_far,
             reinterpret_cast<int32_t*>(contiguous_array.data()),
-            flatlength >> 1);
+            flatlength);
+            flatlength = flatlength * 2;
           break;
         case util::dtype::int64:
           err = kernel::NumpyArray_fill<int64_t, std::complex<float>>(
@@ -2717,7 +2721,8 @@ namespace awkward {
             reinterpret_cast<std::complex<float>*>(ptr.get()),
             flatlength_so_far,
             reinterpret_cast<int64_t*>(contiguous_array.data()),
-            flatlength >> 1);
+            flatlength);
+            flatlength = flatlength * 2;
           break;
         case util::dtype::uint8:
           err = kernel::NumpyArray_fill<uint8_t, std::complex<float>>(
@@ -2725,7 +2730,8 @@ namespace awkward {
             reinterpret_cast<std::complex<float>*>(ptr.get()),
             flatlength_so_far,
             reinterpret_cast<uint8_t*>(contiguous_array.data()),
-            flatlength >> 1);
+            flatlength);
+            flatlength = flatlength * 2;
           break;
         case util::dtype::uint16:
           err = kernel::NumpyArray_fill<uint16_t, std::complex<float>>(
@@ -2733,7 +2739,8 @@ namespace awkward {
             reinterpret_cast<std::complex<float>*>(ptr.get()),
             flatlength_so_far,
             reinterpret_cast<uint16_t*>(contiguous_array.data()),
-            flatlength >> 1);
+            flatlength);
+            flatlength = flatlength * 2;
           break;
         case util::dtype::uint32:
           err = kernel::NumpyArray_fill<uint32_t, std::complex<float>>(
@@ -2741,7 +2748,8 @@ namespace awkward {
             reinterpret_cast<std::complex<float>*>(ptr.get()),
             flatlength_so_far,
             reinterpret_cast<uint32_t*>(contiguous_array.data()),
-            flatlength >> 1);
+            flatlength);
+            flatlength = flatlength * 2;
           break;
         case util::dtype::uint64:
           err = kernel::NumpyArray_fill<uint64_t, std::complex<float>>(
@@ -2749,7 +2757,8 @@ namespace awkward {
             reinterpret_cast<std::complex<float>*>(ptr.get()),
             flatlength_so_far,
             reinterpret_cast<uint64_t*>(contiguous_array.data()),
-            flatlength >> 1);
+            flatlength);
+            flatlength = flatlength * 2;
           break;
         case util::dtype::float16:
           throw std::runtime_error(
@@ -2762,7 +2771,8 @@ namespace awkward {
             reinterpret_cast<std::complex<float>*>(ptr.get()),
             flatlength_so_far,
             reinterpret_cast<float*>(contiguous_array.data()),
-            flatlength >> 1);
+            flatlength);
+            flatlength = flatlength * 2;
           break;
         case util::dtype::float64:
           err = kernel::NumpyArray_fill<double, std::complex<float>>(
@@ -2770,7 +2780,8 @@ namespace awkward {
             reinterpret_cast<std::complex<float>*>(ptr.get()),
             flatlength_so_far,
             reinterpret_cast<double*>(contiguous_array.data()),
-            flatlength >> 1);
+            flatlength);
+            flatlength = flatlength * 2;
           break;
         case util::dtype::complex64:
           err = kernel::NumpyArray_fill<std::complex<float>, std::complex<float>>(
@@ -2799,7 +2810,8 @@ namespace awkward {
             reinterpret_cast<std::complex<double>*>(ptr.get()),
             flatlength_so_far,
             reinterpret_cast<bool*>(contiguous_array.data()),
-            flatlength >> 1);
+            flatlength);
+            flatlength = flatlength * 2;
           break;
         case util::dtype::int8:
           err = kernel::NumpyArray_fill<int8_t, std::complex<double>>(
@@ -2807,7 +2819,8 @@ namespace awkward {
             reinterpret_cast<std::complex<double>*>(ptr.get()),
             flatlength_so_far,
             reinterpret_cast<int8_t*>(contiguous_array.data()),
-            flatlength >> 1);
+            flatlength);
+            flatlength = flatlength * 2;
           break;
         case util::dtype::int16:
           err = kernel::NumpyArray_fill<int16_t, std::complex<double>>(
@@ -2815,7 +2828,8 @@ namespace awkward {
             reinterpret_cast<std::complex<double>*>(ptr.get()),
             flatlength_so_far,
             reinterpret_cast<int16_t*>(contiguous_array.data()),
-            flatlength >> 1);
+            flatlength);
+            flatlength = flatlength * 2;
           break;
         case util::dtype::int32:
           err = kernel::NumpyArray_fill<int32_t, std::complex<double>>(
@@ -2823,7 +2837,8 @@ namespace awkward {
             reinterpret_cast<std::complex<double>*>(ptr.get()),
             flatlength_so_far,
             reinterpret_cast<int32_t*>(contiguous_array.data()),
-            flatlength >> 1);
+            flatlength);
+            flatlength = flatlength * 2;
           break;
         case util::dtype::int64:
           err = kernel::NumpyArray_fill<int64_t, std::complex<double>>(
@@ -2831,7 +2846,8 @@ namespace awkward {
             reinterpret_cast<std::complex<double>*>(ptr.get()),
             flatlength_so_far,
             reinterpret_cast<int64_t*>(contiguous_array.data()),
-            flatlength >> 1);
+            flatlength);
+            flatlength = flatlength * 2;
           break;
         case util::dtype::uint8:
           err = kernel::NumpyArray_fill<uint8_t, std::complex<double>>(
@@ -2839,7 +2855,8 @@ namespace awkward {
             reinterpret_cast<std::complex<double>*>(ptr.get()),
             flatlength_so_far,
             reinterpret_cast<uint8_t*>(contiguous_array.data()),
-            flatlength >> 1);
+            flatlength);
+            flatlength = flatlength * 2;
           break;
         case util::dtype::uint16:
           err = kernel::NumpyArray_fill<uint16_t, std::complex<double>>(
@@ -2847,7 +2864,8 @@ namespace awkward {
             reinterpret_cast<std::complex<double>*>(ptr.get()),
             flatlength_so_far,
             reinterpret_cast<uint16_t*>(contiguous_array.data()),
-            flatlength >> 1);
+            flatlength);
+            flatlength = flatlength * 2;
           break;
         case util::dtype::uint32:
           err = kernel::NumpyArray_fill<uint32_t, std::complex<double>>(
@@ -2855,7 +2873,8 @@ namespace awkward {
             reinterpret_cast<std::complex<double>*>(ptr.get()),
             flatlength_so_far,
             reinterpret_cast<uint32_t*>(contiguous_array.data()),
-            flatlength >> 1);
+            flatlength);
+            flatlength = flatlength * 2;
           break;
         case util::dtype::uint64:
           err = kernel::NumpyArray_fill<uint64_t, std::complex<double>>(
@@ -2863,7 +2882,8 @@ namespace awkward {
             reinterpret_cast<std::complex<double>*>(ptr.get()),
             flatlength_so_far,
             reinterpret_cast<uint64_t*>(contiguous_array.data()),
-            flatlength >> 1);
+            flatlength);
+            flatlength = flatlength * 2;
           break;
         case util::dtype::float16:
           throw std::runtime_error(
@@ -2876,7 +2896,8 @@ namespace awkward {
             reinterpret_cast<std::complex<double>*>(ptr.get()),
             flatlength_so_far,
             reinterpret_cast<float*>(contiguous_array.data()),
-            flatlength >> 1);
+            flatlength);
+            flatlength = flatlength * 2;
           break;
         case util::dtype::float64:
           err = kernel::NumpyArray_fill<double, std::complex<double>>(
@@ -2884,7 +2905,8 @@ namespace awkward {
             reinterpret_cast<std::complex<double>*>(ptr.get()),
             flatlength_so_far,
             reinterpret_cast<double*>(contiguous_array.data()),
-            flatlength >> 1);
+            flatlength);
+            flatlength = flatlength * 2;
           break;
         case util::dtype::complex64:
           err = kernel::NumpyArray_fill<std::complex<float>, std::complex<double>>(
